@@ -4,7 +4,7 @@
 From Coq Require Import List Arith ZArith.
 From EN Require Import Lib.Bytes Frame.Framer Frame.ReadUntil Frame.BufReadUntil Stream.Consumer Stream.SpecDecode
   Frame.Serialize Frame.Convert Frame.JsonRaw Frame.JsonGrammar Frame.ErrSites Frame.Generic
-  Proofs.C07_extra Proofs.C01_generic Proofs.C01_json Proofs.C01_bufsim Proofs.C01_proofs Proofs.Convert_proofs Proofs.Fixed_proofs Proofs.BufFixed_proofs Proofs.Serialize_proofs.
+  Frame.Stapled Gen.ParamsC01 Proofs.C01_stapled Proofs.C07_extra Proofs.C01_generic Proofs.C01_json Proofs.C01_bufsim Proofs.C01_proofs Proofs.Convert_proofs Proofs.Fixed_proofs Proofs.BufFixed_proofs Proofs.Serialize_proofs.
 Import ListNotations.
 
 (* Copying consumer (StreamDataConsumer over read_until): for EVERY list of packets valid for the codec, EVERY way of
@@ -231,3 +231,53 @@ Example roundtrip_cut_inside_separator :
     [[65; 65; 13]; [10; 65; 13]; [10; 13]; [10]]%N
   = (@Build_cstate nat (ru_framer crlf 8 false toy_dec) [] None, [RPkt 2; RPkt 1; RPkt 0]).
 Proof. vm_compute. reflexivity. Qed.
+
+(* ---- composite serializers (serializers/composite.py).  [stapled_class] is regenerated from the `match` of
+   StapledPacketSerializer.__new__ on every run (Gen/ParamsC01.v). *)
+
+(* The stapled class built for a pair of serializers is decided by the RECEIVED half (and needs an incremental SENT half):
+   for every capability of the two halves (0 one-shot, 1 incremental, 2 buffered) and every constructor call the
+   signatures allow, rank = 0 when the sent half is one-shot, else the capability of the received half. *)
+Theorem stapled_dispatch :
+  forall cls s r : Z,
+    (0 <= s <= 2)%Z -> (0 <= r <= 2)%Z ->
+    (cls = 0 \/ (cls = 1 /\ 1 <= s /\ 1 <= r) \/ (cls = 2 /\ 1 <= s /\ r = 2))%Z ->
+    Gen.ParamsC01.stapled_class cls s r = (if (s =? 0)%Z then 0 else r)%Z.
+Proof. exact Proofs.C01_stapled.stapled_dispatch_proof. Qed.
+Print Assumptions stapled_dispatch.
+
+(* So StreamProtocol / BufferedStreamProtocol accept a stapled serializer for exactly the receive paths its received
+   half implements (the methods they call are delegated to that half). *)
+Theorem stapled_offers_paths_of_received_half :
+  forall (PS X Y PR : Type) (s : Frame.Stapled.half PS X) (r : Frame.Stapled.half Y PR),
+    (0 <= Frame.Stapled.h_cap s <= 2)%Z -> (0 <= Frame.Stapled.h_cap r <= 2)%Z ->
+    (Frame.Stapled.offers_copying (Frame.Stapled.staple s r) = true
+       <-> (1 <= Frame.Stapled.h_cap s /\ 1 <= Frame.Stapled.h_cap r)%Z) /\
+    (Frame.Stapled.offers_buffered (Frame.Stapled.staple s r) = true
+       <-> (1 <= Frame.Stapled.h_cap s /\ Frame.Stapled.h_cap r = 2)%Z).
+Proof. exact Proofs.C01_stapled.staple_offers. Qed.
+Print Assumptions stapled_offers_paths_of_received_half.
+
+(* Two peers stapling the same two separator-framed serializers the other way round (A = Stapled(S, R) sends to
+   B = Stapled(R, S)): for every list of packets valid for S and every chunking of what A's sending half produces,
+   B's copying consumer returns exactly the packets and holds nothing, and so does its buffer-filling consumer when the
+   protocol offers it; whatever serializer R is. *)
+Theorem stapled_peers_roundtrip :
+  forall (P Q : Type) (capS capR : Z) (sepS sepR : bytes) (keS keR : bool) (encS : P -> bytes) (decS : decoder P)
+         (encR : Q -> bytes) (decR : decoder Q) (limS limR sizehint : nat),
+    sepS <> [] -> length sepS + 1 <= limS ->
+    let S := Proofs.C01_stapled.sep_half capS sepS limS keS encS decS in
+    let R := Proofs.C01_stapled.sep_half capR sepR limR keR encR decR in
+    let A := Frame.Stapled.staple S R in
+    let B := Frame.Stapled.staple R S in
+    forall (pkts : list P) (chunks : list bytes) (fuel : nat),
+      Forall (valid_pkt sepS keS encS decS (limS - 1 - length sepS)) pkts ->
+      Forall (fun ch => ch <> []) chunks ->
+      concat chunks = concat (map (fun p => match Frame.Stapled.h_iser A p with Some l => concat l | None => [] end) pkts) ->
+      length (stream sepS encS pkts) < fuel ->
+      cdeliver (Frame.Stapled.h_fr B) fuel (cinit _) chunks =
+        (@Build_cstate P (Frame.Stapled.h_fr B) [] None, map RPkt pkts)
+      /\ exists c', bcdeliver (Frame.Stapled.h_bfr B) sizehint fuel (bcinit _) chunks = (c', map RPkt pkts) /\
+                    bcons c' = None /\ balready c' = 0 /\ bexported c' = None.
+Proof. exact Proofs.C01_stapled.stapled_peers_roundtrip_proof. Qed.
+Print Assumptions stapled_peers_roundtrip.
